@@ -326,6 +326,30 @@ def state_lock_harness(w):
         holder = [lk]
         gen = lambda: holder[0].get('generation').slot[0]
         op = ex.choose(3, 'operation')
+        if ex.env.get('native'):
+            from mirsym.executor import RustPanic
+            if op == 1:
+                ex.assume(z3.URem(g0.v, 2) == 1)
+            want = ex.fresh_int('usize', 'wanted') if op == 2 else None
+            g = hlib.concrete_int(ex, g0)
+            wv = min(hlib.concrete_int(ex, want), 1 << 62) if want is not None else 0
+            runner, prof = ex.env['native']
+            ex.env['native_used'] = True
+            txt = runner('state_lock', [op, g, wv])[prof]
+            ex.env['native_out'] = txt
+            if txt == 'PANIC':
+                raise RustPanic('IterationStateLock panicked (operation %d, generation %d)' % (op, g))
+            if op == 0 and not (txt[:1] == 'G' and int(txt[1:]) % 2 == 1 and g <= int(txt[1:]) <= g + 1):
+                raise Violation('lock() does not leave an odd generation one step ahead at most (native: %d -> %s)' % (g, txt))
+            if op == 1 and txt != 'G%d' % (g + 1):
+                raise Violation('unlock() does not publish generation + 1 (native: %d -> %s)' % (g, txt))
+            if op == 2 and txt == 'RETURNED' and g < wv:
+                raise Violation('wait_for_update returned although the generation is older than requested (native: '
+                                'generation %d, wanted %d)' % (g, wv))
+            if op == 2 and txt == 'BLOCKED' and g >= wv:
+                raise Violation('wait_for_update blocks although the generation is already the requested one (native: '
+                                'generation %d, wanted %d)' % (g, wv))
+            return {'native': txt}
         if op == 0:
             ex.call_function(lock, [Ref(holder, 0)])
             check(ex, z3.And(z3.URem(gen().z(), 2) == 1, z3.UGE(gen().z(), g0.v), z3.ULE(gen().z(), g0.v + 1)),
